@@ -65,6 +65,9 @@ StrArg(r) ==
 
 (* a result that is a required error / open, propagated *)
 Bad(r) == r.k # "ok"
+(* what a sub-expression's problem means for the expression around it: a required error and an open outcome carry over;  *)
+(* "empty or an error" does not fix what an enclosing aggregate answers, so the enclosing expression is left open         *)
+Down(r) == IF r.k = "eoe" THEN EAny ELSE r
 
 (* fold results of per-item evaluations: first problem wins *)
 FirstBad(rs) == LET j == CHOOSE j \in 1..Len(rs) : Bad(rs[j]) /\ \A q \in 1..(j - 1) : ~Bad(rs[q]) IN rs[j]
@@ -243,7 +246,7 @@ CallFn(f, args, env, input) ==
          ELSE EOk(FlattenSeq([j \in 1..Len(rs) |-> rs[j].items]))
     [] f = "exists" ->
          IF Len(args) = 0 THEN EOk(<<B(Len(input) > 0)>>)
-         ELSE LET w == CallFn("where", args, env, input) IN IF Bad(w) THEN w ELSE EOk(<<B(Len(w.items) > 0)>>)
+         ELSE LET w == CallFn("where", args, env, input) IN IF Bad(w) THEN Down(w) ELSE EOk(<<B(Len(w.items) > 0)>>)
     [] f = "all" ->
          LET ts == Truths(args[1], env, input) IN
          IF \E j \in 1..Len(ts) : ts[j] \in {"ERR", "X"}
@@ -291,7 +294,7 @@ CallFn(f, args, env, input) ==
     [] f = "exclude" ->
          LET a == Eval(args[1], env, input) IN
          IF Len(input) = 0 THEN EOk(<<>>)
-         ELSE IF Bad(a) THEN a
+         ELSE IF Bad(a) THEN Down(a)
          ELSE IF \E j \in 1..Len(input) : MayMember(input[j], a.items) # Member(input[j], a.items) THEN EAny
          ELSE EOk(SubsetOrdered(input, [j \in 1..Len(input) |-> ~Member(input[j], a.items)])
                    \o (IF Mutant = "excludeSymmetric"
@@ -313,21 +316,21 @@ Eval(e, env, focus) ==
          THEN (LET r == RootStep(env.forest, focus, e.name) IN EOk(r.items)) ELSE EAny
     [] e.k = "field" ->
          LET i == Eval(e.in, env, focus) IN
-         IF Bad(i) THEN i
+         IF Bad(i) THEN Down(i)
          ELSE IF e.name = "value" /\ \E j \in 1..Len(i.items) : i.items[j].t = "el" /\ i.items[j].r # 0 /\ IsTemporalValue(i.items[j].v)
               THEN EAny     \* .value of a date/time primitive: the System value or its string rendering (C02 latitude)
          ELSE LET r == FieldStep(env.forest, env.sch, i.items, e.name)
               IN IF r.k = "ok" THEN EOk(r.items) ELSE IF r.k = "err" THEN EErr ELSE EAny
     [] e.k = "idx" ->
-         LET i == Eval(e.in, env, focus) IN IF Bad(i) THEN i ELSE EOk(IndexStep(i.items, e.i).items)
+         LET i == Eval(e.in, env, focus) IN IF Bad(i) THEN Down(i) ELSE EOk(IndexStep(i.items, e.i).items)
     [] e.k = "lit" -> EOk(e.items)
     [] e.k = "var" -> IF e.name \in DOMAIN env.vars THEN EOk(env.vars[e.name]) ELSE EErr
     [] e.k = "call" ->
-         LET i == Eval(e.in, env, focus) IN IF Bad(i) THEN i ELSE CallFn(e.f, e.args, env, i.items)
+         LET i == Eval(e.in, env, focus) IN IF Bad(i) THEN Down(i) ELSE CallFn(e.f, e.args, env, i.items)
     [] e.k = "bin" ->
          LET l == Eval(e.l, env, focus)
              r == Eval(e.r, env, focus)
-         IN IF Bad(l) THEN l ELSE IF Bad(r) THEN r
+         IN IF Bad(l) THEN Down(l) ELSE IF Bad(r) THEN Down(r)
             ELSE IF e.op \in BoolOps THEN
                (LET v == BinOp3E(e.op, Singleton3(l.items), Singleton3(r.items))
                 IN IF v = "ERR" THEN EErr ELSE EOk(IF v = "E" THEN <<>> ELSE <<B(v = "T")>>))
@@ -341,12 +344,12 @@ Eval(e, env, focus) ==
             ELSE EAny
     [] e.k = "neg" ->
          LET i == Eval(e.in, env, focus) IN
-         IF Bad(i) THEN i
+         IF Bad(i) THEN Down(i)
          ELSE IF Len(i.items) = 0 THEN EOk(<<>>)
          ELSE IF Len(i.items) > 1 \/ ~IsNum(Val(i.items[1])) THEN EAny
          ELSE OfWitness(Ar!WUn("neg", Ar!NumOfItem(Val(i.items[1])), 0))
     [] e.k = "typeop" ->
-         LET i == Eval(e.in, env, focus) IN IF Bad(i) THEN i ELSE TypeOp(e.op, env, i.items, e.ns, e.name)
+         LET i == Eval(e.in, env, focus) IN IF Bad(i) THEN Down(i) ELSE TypeOp(e.op, env, i.items, e.ns, e.name)
 
 (***************************************************************************)
 (* Acceptance predicates for the set functions, whose result the property  *)
